@@ -937,6 +937,69 @@ def op_stock_convert(st, op, info):
         info.stock = r
 
 
+def op_valq(st, op, info):
+    """read-only queries that hand back plain ndarrays / numbers (sum_values*, cast_values_to, items_where, size / shape / str, the
+    stock balance): public operations that are not in place, so C15 N1 (inputs unchanged, returned or raised) and C13 I4 apply"""
+    f = op["f"]
+    info.kind = "valq:" + f
+    if f in ("stock_balance", "check_stock_balance", "cohort_tables", "stock_str"):
+        if not st.stocks:
+            return
+        stock = st.stocks[op.get("k", 0) % len(st.stocks)]
+        info.inputs = [stock.stock, stock.inflow, stock.outflow]
+        if f == "stock_balance":
+            call(st, op, lambda: stock.get_stock_balance(), info)
+        elif f == "check_stock_balance":
+            import contextlib, io
+            def thunk():
+                with contextlib.redirect_stdout(io.StringIO()):
+                    return stock.check_stock_balance()
+            call(st, op, thunk, info)
+        elif f == "stock_str":
+            call(st, op, lambda: (str(stock), stock.shape, stock.process_id if stock.process is not None else None), info)
+        else:
+            if not hasattr(stock, "get_stock_by_cohort"):
+                info.kind = ""
+                return
+            call(st, op, lambda: (stock.get_stock_by_cohort(), stock.get_outflow_by_cohort()), info)
+        st.probe("valq_" + f + "_" + info.outcome)
+        return
+    x = st.slot(op["s"])
+    if x is None:
+        return
+    info.inputs = [x]
+    dims = list(x.dims)
+    sel = []
+    for p in op.get("dims", []):
+        if dims and dims[p % len(dims)] not in sel:
+            sel.append(dims[p % len(dims)])
+    twice = {d.name for d in dims if sum(1 for y in dims if y.name == d.name) > 1}
+    form = op.get("form", "letter")
+    keys = tuple(d.letter if (form == "letter" or d.name in twice) else (d.name if form == "name" else d) for d in sel)
+    if f == "sum_values":
+        call(st, op, lambda: x.sum_values(), info)
+    elif f == "sum_values_over":
+        call(st, op, lambda: x.sum_values_over(keys), info)
+    elif f == "sum_values_to":
+        call(st, op, lambda: x.sum_values_to(keys), info)
+    elif f == "cast_values_to":
+        extra = st._uniq(op.get("extra", []))
+        have = [d.letter for d in dims]
+        target = list(dims) + [st.D[i] for i in extra if st.LET[i] not in have]
+        rot = op.get("rot", 0) % max(1, len(target))
+        tds = DimensionSet(dim_list=target[rot:] + target[:rot])
+        info.raw.append(("dimset", tds, dims_sig(tds), lambda s, o: dims_sig(o) == s))
+        call(st, op, lambda: x.cast_values_to(tds), info)
+    elif f == "items_where":
+        thr = float(op.get("num", 2))
+        call(st, op, lambda: x.items_where(lambda v: v > thr), info)
+    elif f == "describe":
+        call(st, op, lambda: (str(x), repr(x.dims), x.shape, x.size, x.dims.total_size), info)
+    else:
+        raise AssertionError(f)
+    st.probe("valq_" + f + "_" + info.outcome)
+
+
 def op_poke(st, op, info):
     """the user writes a NaN straight into .values of a pooled array (documented direct access)"""
     a = st.slot(op["s"])
@@ -980,6 +1043,6 @@ def op_plot(st, op, info):
     st.probe("plot_" + info.outcome)
 
 
-HANDLERS = {"plot": op_plot, "poke": op_poke, "stock_poison": op_stock_poison, "stock_convert": op_stock_convert, "system": op_system, "stock_compute": op_stock_compute, "lifetime": op_lifetime, "mk": op_mk, "arith": op_arith, "reduce": op_reduce, "slice": op_slice, "setitem": op_setitem,
+HANDLERS = {"valq": op_valq, "plot": op_plot, "poke": op_poke, "stock_poison": op_stock_poison, "stock_convert": op_stock_convert, "system": op_system, "stock_compute": op_stock_compute, "lifetime": op_lifetime, "mk": op_mk, "arith": op_arith, "reduce": op_reduce, "slice": op_slice, "setitem": op_setitem,
             "set_values": op_set_values, "inplace_unary": op_inplace_unary, "df": op_df, "split": op_split_stack,
             "stack": op_split_stack, "stock": op_stock}
